@@ -242,7 +242,12 @@ def c09d(prog, R):
     wd = prog.need("version::Version::with_dropped")
     r.check(bool(wd.calls_to("version::blob_file_list::BlobFileList::prune_dead")), "%s|prune_dead(gc_stats)" % wd.path,
             "with_dropped no longer removes blob files that became dead", wd.where())
-    r.floor(6)
+    from rules.props import c08
+    c08.with_merge_guards(prog, r)
+    r.floor(10)
+    # stale entries of dropped files must never attach to a new file: ids are not reused (shared clause C04.c)
+    from rules.props import c04
+    c04.c04c(prog, R, rid="C09.f")
 
 
 def c09e(prog, R):
